@@ -321,7 +321,7 @@ def plan(tier):
     specs += [{'kind': 'cells', 'shard': NSHARD + i, 'via': via, 'part': i % 4}
               for i, via in enumerate(['cell'] * 4 + ['literal'] * 4)]
     if tier == 'thorough':
-        specs += [{'kind': 'hyp', 'shard': 100 + i, 'examples': 12000} for i in range(16)]
+        specs += [{'kind': 'hyp', 'shard': 100 + i, 'examples': 40000} for i in range(16)]
     else:
         specs += [{'kind': 'hyp', 'shard': 100 + i, 'examples': 2500} for i in range(16)]
     return specs
